@@ -13,10 +13,10 @@ import (
 
 type modelFn func(x *Exec, fr *Frame, st *State, pc *preparedCall, k func(*State, []Value))
 
-var models map[string]modelFn
+var models = map[string]modelFn{}
 
 func init() {
-	models = map[string]modelFn{
+	for k, v := range map[string]modelFn{
 		"strings.SplitN":      modelSplitN,
 		"strings.Split":       modelSplit,
 		"strings.TrimSpace":   modelTrimSpace,
@@ -67,6 +67,8 @@ func init() {
 		"encoding/base64.Encoding.DecodeString":   modelB64DecodeString,
 		"encoding/base64.Encoding.EncodeToString": modelFreshString("b64enc"),
 		"encoding/base64.Encoding.DecodedLen":     modelB64DecodedLen,
+	} {
+		models[k] = v
 	}
 }
 
